@@ -29,11 +29,14 @@ type Universe struct {
 	Exp     map[string]int64  // absolute expiration
 	Enc     map[string]map[string]*types.Transaction // box id -> carrier encoding -> the box with its payload written that way
 	Cross   map[common.Hash]common.Hash              // identity of a transaction -> identity of ANOTHER one (carrier encoding "k")
+	Var     map[string]string                        // id of an own-carrier variant (own.go) -> id of the transaction it re-writes
+	OwnOnly map[string]bool                          // ids that exist only in the forms of own.go (variants and boxes around them)
+	byWire  map[string]string                        // bytes of a transaction's own RLP (gasUsed zeroed) -> id (transactions that are not boxes)
 }
 
 func NewUniverse() *Universe {
 	return &Universe{Tx: map[string]*types.Transaction{}, Subs: map[string][]string{}, Payload: map[string]string{}, How: map[string]string{}, Exp: map[string]int64{},
-		Enc: map[string]map[string]*types.Transaction{}, Cross: map[common.Hash]common.Hash{}}
+		Enc: map[string]map[string]*types.Transaction{}, Cross: map[common.Hash]common.Hash{}, Var: map[string]string{}, OwnOnly: map[string]bool{}, byWire: map[string]string{}}
 }
 
 func mustSign(tx *types.Transaction, key *ecdsa.PrivateKey) *types.Transaction {
@@ -174,6 +177,9 @@ func (u *Universe) Add(id string, tx *types.Transaction, subs ...string) {
 		}
 	}
 	u.IDs = append(u.IDs, id)
+	if tx.Type() != params.BoxTx {
+		u.byWire[wireKey(tx)] = id
+	}
 }
 
 // Txs maps ids to the real transactions (fresh copies, as decoded from the wire, so that no cached
